@@ -1,0 +1,22 @@
+//go:build verif
+
+package chacha20poly1305
+
+// Contracts for package chacha20poly1305, checked by /verif (govc). Comment-only file: it adds no declarations.
+
+//@ func DecryptAndVerify(key, nonce, message, mac, add) (out, err)
+//@   trusted
+//@   fresh out
+//@   pure
+//@   ensures err != nil ==> out == nil
+//@   ensures err == nil ==> len(key) == 32 && len(nonce) == 8 && len(out) == len(message)
+//@   ensures err == nil ==> aead_ok(seq(key), seq(nonce), seq(message), seq(mac), seq(add))
+//@   ensures err == nil ==> seq(out) == aead_open(seq(key), seq(nonce), seq(message), seq(mac), seq(add))
+
+//@ func EncryptAndSeal(key, nonce, message, add) (out, mac, err)
+//@   trusted
+//@   fresh out
+//@   pure
+//@   ensures err == nil ==> len(out) == len(message)
+//@   ensures err == nil ==> seq(out) == aead_seal(seq(key), seq(nonce), seq(message), seq(add)) && seq(mac) == aead_tag(seq(key), seq(nonce), seq(message), seq(add))
+//@   ensures (len(key) == 32 && len(nonce) == 8) ==> err == nil
